@@ -137,7 +137,10 @@ def read_only(ctx):
                 break
         # output_to_firrtl rewrites in place but must preserve behaviour
         b2 = passlib.private_copy(blk)
-        dv = rng.choice([1, 3, 0xff, rng.getrandbits(16) | 1])
+        # a default_value every register and memory word of the design can hold (a wider one is not a legal state)
+        minw = min([len(r) for r in b2.wirevector_subset(pyrtl.Register)] +
+                   [n.op_param[1].bitwidth for n in b2.logic_subset('m@')] + [16])
+        dv = (rng.getrandbits(minw) | 1) & ((1 << minw) - 1)
 
         def real_trace(b):
             # the real simulator with a non-zero default_value: registers without a reset value and unwritten
